@@ -122,6 +122,19 @@ func litmusTests() []litmus {
 				},
 				func() string { *vrt.W(&data) = 5; vatomic.StoreUint32(&flag32, 1); return "" }},
 			wantKind: "", wantAll: true, want: []string{"5", ""}},
+		{name: "a flag checked ten times in a row is not a spin-wait", reset: func() { data, flag32 = 0, 0 },
+			threads: []func() string{
+				func() string {
+					n := 0
+					for i := 0; i < 10; i++ {
+						if vatomic.LoadUint32(&flag32) == 0 {
+							n++
+						}
+					}
+					return str(n)
+				},
+				func() string { *vrt.W(&data) = 5; return "" }},
+			wantKind: "", wantAll: true},
 		{name: "atomic flag claimed before the data is written", reset: func() { data, flag32 = 0, 0 },
 			threads: []func() string{
 				func() string {
